@@ -391,7 +391,10 @@ def model_term(inp):
         return f"run_store {_cd(inp['d'])}"
     _s, _d, inter, native = KINDS[inp["kind"]]
     master = "None" if inp["master"] is None else f"(Some {_cd(inp['master'])})"
-    return (f"run_transfer {coq_bool(inter)} {coq_bool(native)} {_cd(inp['src'])} {_cd(inp['dst'])} {master} "
+    d_store = _d
+    ds = ("DNative" if native else
+          f"(DGit {coq_list([coq_bytes(g) for g in GIT_SYMS])})" if d_store == "git" else "DMem")
+    return (f"run_transfer {coq_bool(inter)} {ds} {_cd(inp['src'])} {_cd(inp['dst'])} {master} "
             f"{coq_bool(inp['ignore_master'])} {coq_bool(inp['overwrite'])} {_csel(inp['sel'])}")
 
 
